@@ -52,7 +52,11 @@ LRSValues == <<
     <<"str", "step_lr">>, <<"str", "reduce_lr_on_plateau">>,
     <<"dict", "step_lr", [step_size |-> I(5), gamma |-> R(1, 2)]>>,
     <<"dict", "reduce_lr_on_plateau", [threshold |-> R(1, 1000), threshold_mode |-> S("abs"), cooldown |-> I(2),
-                                       patience |-> I(3), factor |-> R(1, 2), min_lr |-> R(1, 100000)]>> >>
+                                       patience |-> I(3), factor |-> R(1, 2), min_lr |-> R(1, 100000)]>>,
+    \* the two-key form of LRSchedulerConfig (what a saved training_config.yaml holds), None first / None last
+    <<"dict2", "reduce_lr_on_plateau", [patience |-> I(3), factor |-> R(1, 2)], "none_first">>,
+    <<"dict2", "step_lr", [step_size |-> I(5)], "none_last">>,
+    <<"dict2", "step_lr", [gamma |-> R(1, 4)], "none_first">> >>
 AugValues == <<
     <<"on", NoAug, NoAug>>,
     <<"on", <<"list", <<"contrast", "brightness">>>>, <<"list", <<"scale", "mixup">>>>>>,
